@@ -195,6 +195,16 @@ class SymE(object):
         except loops.NotElementwise as e:
             raise Undecided("generic-element rule not applicable to %s loop %d: %s" % (qual, which, e))
 
+    def prefix_independence(self):
+        """side condition of the parser obligations (loops.audit_prefix_independence)"""
+        from . import loops
+        from .engine import Undecided
+
+        try:
+            loops.audit_prefix_independence(self.ip.tree, self.ip.source)
+        except loops.NotElementwise as e:
+            raise Undecided("prefix-independence audit failed: %s" % e)
+
     def feasibility_budget(self, ms):
         """time given to each branch-feasibility query (no answer = explored as feasible; vacuous paths are harmless)"""
         self.e.feas_timeout_ms = ms
@@ -654,6 +664,9 @@ class ConcE(object):
         pass
 
     def elementwise_loop(self, qual, which=0):
+        pass
+
+    def prefix_independence(self):
         pass
 
     def feasibility_budget(self, ms):
